@@ -67,6 +67,8 @@ type RemoteParams struct {
 	// FaultPick: when set (and Fault is nil) the fault is placed on the FaultPick-th exchange (modulo)
 	// of a fault-free run of the same history, and Fault is filled in
 	FaultPick []uint64 `json:"fault_pick,omitempty"`
+	// FaultFrom: the exchange is picked among the manifest exchanges of the steps from this one on (0 = any exchange)
+	FaultFrom int `json:"fault_from,omitempty"`
 }
 
 type remoteProp struct {
@@ -80,7 +82,7 @@ func init() { register(&remoteProp{}) }
 func (p *remoteProp) ID() string { return "C13" }
 
 func (p *remoteProp) Rule() string {
-	return "scenario = history of Repository operations (Push, Fetch, Read/Seek sequences, Exists, Resolve by tag/digest, Tag, PushReference, FetchReference, Delete, Mount, Predecessors) over a random DAG against one stateful simulated registry with a drawn capability profile (Referrers API, OCI-Subject, digest headers, Range, mount, Content-Length, Location form), optionally with one single-field corruption of a response; non-trivial = at least 3 operations changed or read registry state successfully, or a corruption fired; distinct = distinct (request trace hash, final registry state hash)"
+	return "scenario = history of Repository operations (Push, Fetch, Read/Seek sequences, Exists, Resolve by tag/digest, Tag, PushReference, FetchReference, Delete, Mount, Predecessors) over a random DAG against one stateful simulated registry with a drawn capability profile (Referrers API, OCI-Subject, digest headers, Range, mount, Content-Length, Location form), optionally with one failed exchange or single-field corruption of a response, placed on an exchange the fault-free history performed; 8% are directed: a subject receives its referrers one after the other on a registry without the Referrers API and a manifest exchange of a later Push or Delete fails, after which the referrers stored before must still be listed; non-trivial = at least 3 operations changed or read registry state successfully, or a corruption fired; distinct = distinct (request trace hash, final registry state hash)"
 }
 
 func (p *remoteProp) Components() map[string][]string {
@@ -100,7 +102,55 @@ func (p *remoteProp) Assumptions() []string {
 	}
 }
 
+// genReferrersUnderFault: a subject gets several referrers one after the other on a registry
+// without the Referrers API; one manifest exchange of a later referrer's Push (or of a Delete)
+// fails. The referrers whose operations completed before must still be listed.
+func (p *remoteProp) genReferrersUnderFault(r *Rand) *RemoteParams {
+	rp := &RemoteParams{}
+	rp.Graph = *GenGraph(r, GraphOpts{MaxNodes: 10, Referrers: true, Fanout: true, OneDigest: true, NoTwins: true, NoForeign: true})
+	g := rp.Graph.Build()
+	refs := map[int][]int{}
+	for _, n := range g.Nodes {
+		if n.IsManif && n.Spec.Subject >= 0 {
+			refs[n.Spec.Subject] = append(refs[n.Spec.Subject], n.ID)
+		}
+	}
+	subj := -1
+	for s := 0; s < len(g.Nodes); s++ {
+		if len(refs[s]) >= 2 && (subj < 0 || r.Bool()) {
+			subj = s
+		}
+	}
+	if subj < 0 {
+		return nil
+	}
+	rp.Profile = RegProfile{DigestHeader: true, Range: r.Bool(), MountOK: r.Bool(), Location: pick(r, []string{"relative", "absolute", "query"})}
+	rp.PlainHTTP = r.Bool()
+	rp.SkipGC = r.Chance(0.3)
+	second := refs[subj][1]
+	for i := range g.Nodes {
+		if i == second {
+			rp.FaultFrom = len(rp.Ops)
+		}
+		rp.Ops = append(rp.Ops, RemoteOp{Op: "push", Node: i})
+		if i >= second && r.Chance(0.3) {
+			rp.Ops = append(rp.Ops, RemoteOp{Op: "preds", Node: subj})
+		}
+	}
+	if r.Bool() {
+		rp.Ops = append(rp.Ops, RemoteOp{Op: "delete", Node: pick(r, refs[subj])})
+	}
+	rp.Ops = append(rp.Ops, RemoteOp{Op: "preds", Node: subj})
+	rp.FaultPick = []uint64{r.U64(), r.U64()}
+	return rp
+}
+
 func (p *remoteProp) Gen(r *Rand, tier string, idx int) any {
+	if r.Chance(0.08) {
+		if rp := p.genReferrersUnderFault(r); rp != nil {
+			return rp
+		}
+	}
 	rp := &RemoteParams{}
 	rp.Graph = *GenGraph(r, GraphOpts{MaxNodes: 10, Referrers: true, OneDigest: true, NoTwins: true, NoForeign: true, SHA512: true})
 	g := rp.Graph.Build()
@@ -306,14 +356,21 @@ func (p *remoteProp) placeFault(rc *RunCtx, rp *RemoteParams) {
 	}
 	scratch := &remoteProp{uncertain: map[string]bool{}}
 	n := 0
+	firstReq := 0 // number of the first request of step FaultFrom
 	simrt.Run(rc.ScratchConfig(), func() {
 		for i, op := range rp.Ops {
+			if i == rp.FaultFrom {
+				firstReq = len(reg.Requests())
+			}
 			scratch.step(context.Background(), &RunCtx{}, rp, g, reg, repo, i, op, &n, func() (bool, []ReqRecord) { return false, nil })
 		}
 	})
 	all := reg.Requests()
 	var reqs []ReqRecord
-	for _, rq := range all {
+	for qi, rq := range all {
+		if rp.FaultFrom > 0 && (qi < firstReq || rq.Class != "manifest") {
+			continue
+		}
 		// the referrers endpoints are C14's and C15's subject; a failed or tampered capability probe
 		// legitimately changes how the client behaves afterwards
 		if rq.Class == "manifest" || rq.Class == "blob" || rq.Class == "upload-start" || rq.Class == "upload-put" {
